@@ -8,6 +8,8 @@ from common import (CONC_BIN, SCRATCH, SHIM, WORKERS, HarnessError, fresh_dir, l
                     tree_fingerprint)
 
 RUNS = {"quick": 20000, "thorough": 400000}
+# the language-server family (E3b): whole cajun server over a scripted transport
+LSP_RUNS = {"quick": 3200, "thorough": 120000}
 
 
 def seam_env():
@@ -15,12 +17,12 @@ def seam_env():
             "NO_COLOR": "1", "HOME": "/nonexistent"}
 
 
-def run_shards(tier, seed, runs, directory, events=False, workers=WORKERS):
+def run_shards(tier, seed, runs, directory, events=False, workers=WORKERS, family="conc"):
     binary = os.path.join(CONC_BIN, "concsim")
     procs = []
     for shard in range(workers):
-        out = os.path.join(directory, f"conc-{shard}.json")
-        argv = ["setarch", "-R", binary, "run", "--tier", tier, "--seed", str(seed), "--shard", f"{shard}/{workers}",
+        out = os.path.join(directory, f"{family}-{shard}.json")
+        argv = ["setarch", "-R", binary, "run" if family == "conc" else "lsp-run", "--tier", tier, "--seed", str(seed), "--shard", f"{shard}/{workers}",
                 "--runs", str(runs), "--out", out]
         if events:
             argv += ["--events", "1"]
@@ -61,9 +63,11 @@ def run(tier, seed):
     directory = fresh_dir(os.path.join(SCRATCH, "concsim"))
     runs = int(os.environ.get("VERIF_RUNS", RUNS[tier]))
     records = run_shards(tier, seed, runs, directory)
+    lsp_runs = int(os.environ.get("VERIF_LSP_RUNS", max(1, runs * LSP_RUNS[tier] // RUNS[tier])))
+    lsp_records = run_shards(tier, seed, lsp_runs, directory, family="lsp")
     findings = [f for f in load_known_findings() if f.get("status") == "known"]
     violations, known_lines, known_seen, unminimised = [], [], set(), 0
-    for record in records:
+    for record in records + lsp_records:
         for violation in record["violations"]:
             if violation.get("unminimised"):
                 unminimised += 1
@@ -83,39 +87,55 @@ def run(tier, seed):
     violations = violations[:8]
     wall = time.time() - started
     probes = {}
-    for record in records:
+    for record in records + lsp_records:
         for key, value in record["probes"].items():
             probes[key] = probes.get(key, 0) + value
     workloads = set(w for r in records for w in r["workloads"])
     outcomes = set(o for r in records for o in r["outcomes"])
     executions = sum(r["executions"] for r in records)
+    lsp_executions = sum(r["executions"] for r in lsp_records)
+    lsp_workloads = set(w for r in lsp_records for w in r["workloads"])
+    lsp_outcomes = set(o for r in lsp_records for o in r["outcomes"])
     coverage = {
-        "evaluations": executions,
-        "distinct_nontrivial": len(outcomes),
+        "evaluations": executions + lsp_executions,
+        "distinct_nontrivial": len(outcomes) + len(lsp_outcomes),
         "rule": "one evaluation = one complete shuttle execution (one seeded schedule of one seeded workload: an editing owner, "
                 "1-3 analysing readers on snapshots, 0-2 identifier allocators, 0-2 check_resolved tasks over 3-5 file slots) "
                 "in its own forked process; distinct = hash of (abstract workload, per-analysis outcome sequence), i.e. "
-                "distinct observable interleavings; every execution has at least two tasks",
-        "samples": [s for r in records for s in r["samples"]][:3],
+                "distinct observable interleavings; every execution has at least two tasks.  The language-server family adds "
+                "executions of the whole cajun server (real tower-lsp Server + LspService, real Cajun handlers, tokio locks, "
+                "real session and salsa) fed 2-6 bursts of 1-6 LSP messages through an in-memory transport with seeded short "
+                "reads/writes, its blocking analysis jobs on shuttle threads (hook H3); distinct = hash of (abstract script, "
+                "per-answer outcome string)",
+        "samples": [s for r in records for s in r["samples"]][:2] + [s for r in lsp_records for s in r["samples"]][:1],
+        "session_family": {"executions": executions, "distinct_workloads": len(workloads), "distinct_observable_interleavings": len(outcomes)},
+        "language_server_family": {"executions": lsp_executions, "distinct_scripts": len(lsp_workloads),
+                                   "distinct_observable_outcomes": len(lsp_outcomes),
+                                   "lsp_frames_judged": sum(r["logical_steps"] for r in lsp_records)},
         "distinct_workloads": len(workloads),
         "distinct_observable_interleavings": len(outcomes),
         "reach_probes": dict(sorted(probes.items())),
         "fault_kinds_fired": {
             "reader_cancelled_by_writer": probes.get("analysis:cancelled", 0) + probes.get("check_resolved:cancelled", 0),
             "edit_landing_inside_running_analysis(completed anyway)": probes.get("completed_although_overtaken_by_an_edit", 0),
-            "shard_lock_contention": probes.get("shard_lock_contended", 0),
+            "shard_lock_contention": probes.get("shard_lock_contended", 0) + probes.get("lsp:shard_lock_contended", 0),
+            "lsp_short_reads": probes.get("lsp:short_reads", 0),
+            "lsp_short_writes": probes.get("lsp:short_writes", 0),
+            "lsp_answer_empty_because_cancelled_or_superseded": probes.get("lsp:racing_answer_empty(cancelled_or_superseded)", 0),
         },
         "logical_events": sum(r["logical_steps"] for r in records),
         "violations_beyond_minimisation_cap": unminimised,
         "known_findings_observed": sorted(known_seen),
-        "simulated_time": "scheduler steps only (no clock in the code under test); step budget 3e6 per execution = bounded liveness",
+        "simulated_time": "scheduler steps only (no clock in the code under test); step budget 1e8 per execution = bounded liveness",
         "runs_per_hour": int(executions / max(wall, 1e-6) * 3600),
         "components": {
             "real": ["zydeco_session::CompilerSession and everything below it", "salsa 0.26.2 query engine, revisions, cancellation (shuttle feature)",
                      "dashmap table logic", "cajun SessionState, AnalysisTask::run, ProjectState::load_from_session + diagnostics (hook H2)",
-                     "KeySpaceId::fresh via hook H1"],
+                     "KeySpaceId::fresh via hook H1",
+                     "language-server family: cajun::Cajun with all its handlers, tower-lsp 0.20 Server/LspService/codec, tokio sync primitives"],
             "stub": ["OS threads -> shuttle coroutines", "parking/futex -> shuttle", "dashmap shard-lock acquisition -> yield-spin",
-                     "cajun's tokio/tower-lsp layer is NOT run: refresh/commit_analysis control flow is mirrored by the workload",
+                     "session family: cajun's refresh/commit_analysis control flow is mirrored by the workload; language-server family: nothing of cajun is mirrored, "
+                     "stdin/stdout -> scripted in-memory transport, tokio blocking pool -> shuttle threads (hook H3), no tokio runtime (work-done progress, which needs timers, is not advertised)",
                      "getrandom (zysim seam)"],
         },
     }
@@ -124,7 +144,9 @@ def run(tier, seed):
         "during the concurrent phase the owner's disk writes target only slots that are certainly in the input table (DESIGN 3.3)",
         "third-party adaptations: vendored salsa (shuttle 0.9, cancellation unwinds marked benign), shuttle-engine (benign-aware panicking), dashmap (yield-spin lock)",
     ]
-    stuck = [name for name in ("analysis:cancelled", "analysis:completed", "completed_although_overtaken_by_an_edit")
+    stuck = [name for name in ("analysis:cancelled", "analysis:completed", "completed_although_overtaken_by_an_edit",
+                               "lsp:racing_answer_empty(cancelled_or_superseded)", "lsp:quiescent_answers_exact",
+                               "lsp:racing_answer_from_another_combination", "lsp:request_answers_non_null")
              if probes.get(name, 0) == 0]
     if stuck and tier == "thorough":
         raise HarnessError(f"reach probes stuck at zero: {stuck}")
